@@ -99,6 +99,14 @@ type opT struct {
 	Cond  node      `json:"cond"`
 	X     int       `json:"x"`
 	Batch []batchEl `json:"batch"`
+	Ok    string    `json:"ok"` // Always... option of the interface the call went through (set by the driver)
+	Ox    int       `json:"ox"`
+}
+
+// optT is the Always... option of a history's interface: none | sec | cj | abs (x = seconds from now) | rel (x = seconds).
+type optT struct {
+	K string `json:"k"`
+	X int    `json:"x"`
 }
 
 type cfgT struct {
@@ -113,6 +121,7 @@ type script struct {
 	Keys  [][]int `json:"keys"`
 	Fs    bool    `json:"fs"`
 	Timed bool    `json:"timed"`
+	Opt   optT    `json:"opt"`
 	Steps []opT   `json:"steps"`
 	Cfgs  []cfgT  `json:"cfgs"`
 	// kind "iter"
@@ -600,11 +609,28 @@ type runner struct {
 	d     *dbT
 	iface *database.Interface
 	stop  func()
+	ok    string // the interface's Always... option as the operations are logged with it
+	ox    int
 }
 
-func newRunner(d *dbT) (*runner, error) {
-	r := &runner{d: d, stop: func() {}}
+func newRunner(d *dbT, opt optT) (*runner, error) {
+	r := &runner{d: d, stop: func() {}, ok: "none"}
 	opts := &database.Options{Local: true, Internal: true}
+	switch opt.K {
+	case "sec":
+		opts.AlwaysMakeSecret = true
+		r.ok = "sec"
+	case "cj":
+		opts.AlwaysMakeCrownjewel = true
+		r.ok = "cj"
+	case "abs":
+		at := time.Now().Unix() + int64(opt.X)
+		opts.AlwaysSetAbsoluteExpiry = at
+		r.ok, r.ox = "abs", rel(at)
+	case "rel":
+		opts.AlwaysSetRelativateExpiry = int64(opt.X)
+		r.ok, r.ox = "rel", opt.X
+	}
 	switch d.cfg.C {
 	case "read":
 		opts.CacheSize = d.cfg.Cs
@@ -798,15 +824,16 @@ func runHistory(tr *vio.Trace, h int, ci int, sc *script, c cfgT) {
 		return
 	}
 	d.empty()
-	r, err := newRunner(d)
+	r, err := newRunner(d, sc.Opt)
 	if err != nil {
 		tr.EmitRaw(map[string]any{"e": "skip", "h": h, "c": ci, "why": err.Error()})
 		return
 	}
-	tr.EmitRaw(map[string]any{"e": "reset", "h": h, "c": ci, "cfg": c, "keys": sc.Keys})
+	tr.EmitRaw(map[string]any{"e": "reset", "h": h, "c": ci, "cfg": c, "keys": sc.Keys, "opt": sc.Opt})
 	for _, o := range sc.Steps {
 		settle()
 		t := nowRel()
+		o.Ok, o.Ox = r.ok, r.ox
 		o.M.Exp = absExp(o.M.Exp, t)
 		if o.Op == "SetAbsoluteExpiry" {
 			o.X = absExp(o.X, t)
